@@ -316,8 +316,8 @@ Proof.
     assert (R2 : R 0 (v_ref l e X) (refs c (v_ref l e X))) by (apply R_refs, R0, (R_inv _ _ _ R1)).
     assert (E1 : ext (v_ref l e X) g) by (eapply ext_back; eauto).
     destruct (v_ref_sound g X l e sg E1 HA) as [A1 J1].
-    inversion Hev; subst.
-    + destruct (IH _ sg tr0 ok (R_inv _ _ _ R1) He A1 H5) as [A2 J2]. split; auto.
+    inversion Hev as [|l0 e0 c0 tr0 ok0 Hb Hrest|l0 e0 c0 Hb]; subst.
+    + destruct (IH _ sg tr0 ok (R_inv _ _ _ R1) He A1 Hrest) as [A2 J2]. split; auto.
       constructor; auto. intros; discriminate.
     + split.
       * (* the remaining references are still passed in the graph *)
@@ -327,7 +327,7 @@ Proof.
         assert (Ry2 : R 0 (v_ref l' e' Y) (refs c (v_ref l' e' Y))) by (apply R_refs, R0, (R_inv _ _ _ Ry)).
         apply IHc; [exact (R_inv _ _ _ Ry)|exact He|].
         apply (v_ref_sound g Y l' e' sg); auto. eapply ext_back; eauto.
-      * constructor; [|constructor]. rewrite H3 in J1. exact J1.
+      * constructor; [|constructor]. rewrite Hb in J1. exact J1.
 Qed.
 
 Lemma bind_app tg : forall sg r, bind (tg ++ [r]) sg = upd (bind tg sg) (snd r) true.
@@ -367,4 +367,88 @@ Proof.
       * intros s2 H2. eapply IH; eauto.
     + eapply P_edge_ext; [|exact He|exact HP]. simpl; auto.
     + eapply IH; eauto.
+Qed.
+
+(* ------------------------------------------------------------------ the simulation, case by case *)
+Definition inl (st : bst) : bool := match loops st with [] => false | _ => true end.
+
+Definition sim_stmt (s : stmt) (sg : state) (tr : list event) (o : out) (s2 : state) : Prop :=
+  forall st g, inv st -> wf (inl st) s = true -> ext (visit true s st) g ->
+    at_cur g st sg -> Kexc g (excs st) sg ->
+    Forall (justified g) tr /\ post g st (visit true s st) o s2.
+
+Lemma visit_R0 s X : inv X -> R (nb X) X (visit true s X).
+Proof. intros Hi. apply (proj1 (visit_R true)). apply R_refl; auto. Qed.
+Lemma visit_R00 s X : inv X -> R 0 X (visit true s X).
+Proof. intros Hi. eapply R_weaken; [|apply visit_R0; auto]. lia. Qed.
+Lemma visit_loops s X : loops (visit true s X) = loops X.
+Proof. apply (proj1 (visit_ceq true) s X). Qed.
+Lemma visit_excs s X : excs (visit true s X) = excs X.
+Proof. apply (proj1 (visit_ceq true) s X). Qed.
+
+Lemma inl_eq a b : loops a = loops b -> inl a = inl b.
+Proof. unfold inl. now intros ->. Qed.
+
+Lemma sim_skip sg : sim_stmt Skip sg [] ONorm sg.
+Proof. intros st g Hi Hw He HA HK. split; [constructor|]. split; auto. Qed.
+Lemma sim_call sg : sim_stmt Call sg [] ONorm sg.
+Proof. intros st g Hi Hw He HA HK. split; [constructor|]. split; auto. Qed.
+Lemma sim_call_exc sg : sim_stmt Call sg [] OExc sg.
+Proof. intros st g Hi Hw He HA HK. split; [constructor|]. split; auto. Qed.
+
+Lemma sim_ref l e sg : sim_stmt (Ref l e) sg [(l, e, sg e)] (if sg e then ONorm else OExc) sg.
+Proof.
+  intros st g Hi Hw He HA HK. simpl in *. destruct (v_ref_sound g st l e sg He HA) as [A J].
+  split; [constructor; auto|]. split; auto. destruct (sg e); auto.
+Qed.
+
+Lemma sim_asg l e sg : sim_stmt (Asg l e) sg [] ONorm (upd sg e true).
+Proof.
+  intros st g Hi Hw He HA HK. simpl in *. destruct (v_asg_sound g st l e sg Hi He HA) as (A & K & _).
+  split; [constructor|]. split; auto.
+Qed.
+
+Lemma sim_del l e ign sg : sg e = true \/ ign = true ->
+  sim_stmt (Del l e ign) sg (if ign then [] else [(l, e, sg e)]) ONorm (upd sg e false).
+Proof.
+  intros Hb st g Hi Hw He HA HK. simpl in *.
+  destruct (v_del_sound g st l e ign sg Hi He HA) as (A & K & J).
+  split; [|split; auto]. destruct ign; constructor; auto.
+Qed.
+
+Lemma sim_del_exc l e sg : sg e = false -> sim_stmt (Del l e false) sg [(l, e, false)] OExc sg.
+Proof.
+  intros Hb st g Hi Hw He HA HK. simpl in *.
+  destruct (v_del_sound g st l e false sg Hi He HA) as (A & K & J).
+  split; [|split; auto]. constructor; auto. rewrite Hb in J. apply J. reflexivity.
+Qed.
+
+Lemma sim_seq a b sg t1 s1 t2 o s2 :
+  sim_stmt a sg t1 ONorm s1 -> sim_stmt b s1 t2 o s2 -> sim_stmt (Seq a b) sg (t1 ++ t2) o s2.
+Proof.
+  intros IHa IHb st g Hi Hw He HA HK. simpl in *. apply andb_true_iff in Hw. destruct Hw as [Hwa Hwb].
+  set (X1 := visit true a st) in *.
+  assert (R1 : R 0 st X1) by (apply visit_R00; auto).
+  assert (E1 : ext X1 g).
+  { destruct (cur X1); auto. eapply ext_back; [apply visit_R00, (R_inv _ _ _ R1)|exact He]. }
+  destruct (IHa st g Hi Hwa E1 HA HK) as [J1 [K1 A1]]. simpl in A1.
+  destruct (at_cur_some _ _ _ A1) as [b1 Hc1]. rewrite Hc1 in *.
+  assert (Hw2 : wf (inl X1) b = true) by (rewrite (inl_eq X1 st); auto; apply visit_loops).
+  rewrite <- (visit_excs a st) in K1. fold X1 in K1.
+  destruct (IHb X1 g (R_inv _ _ _ R1) Hw2 He A1 K1) as [J2 P2].
+  split; [apply Forall_app; auto|].
+  eapply post_ctx; [| |exact P2]; [apply visit_loops|apply visit_excs].
+Qed.
+
+Lemma sim_seq_stop a b sg t1 o s1 : o <> ONorm ->
+  sim_stmt a sg t1 o s1 -> sim_stmt (Seq a b) sg t1 o s1.
+Proof.
+  intros Ho IHa st g Hi Hw He HA HK. simpl in *. apply andb_true_iff in Hw. destruct Hw as [Hwa Hwb].
+  set (X1 := visit true a st) in *.
+  assert (R1 : R 0 st X1) by (apply visit_R00; auto).
+  assert (R2 : R 0 X1 (match cur X1 with Some _ => visit true b X1 | None => X1 end)).
+  { destruct (cur X1); [apply visit_R00|apply R0]; exact (R_inv _ _ _ R1). }
+  assert (E1 : ext X1 g) by (eapply ext_back; eauto).
+  destruct (IHa st g Hi Hwa E1 HA HK) as [J1 P1].
+  split; auto. eapply post_mono; [|exact Ho|exact P1]. apply ext_edges, (R_ext _ _ _ R2).
 Qed.
